@@ -17,6 +17,7 @@ func main() {
 	dump := flag.String("dump", "", "debug: dump effects and facts reachable from the entry function id")
 	dumpFilter := flag.String("filter", "", "debug: only effects whose name contains this")
 	listFuncs := flag.Bool("funcs", false, "debug: list library functions")
+	listFields := flag.Bool("fields", false, "debug: list the fields of library struct types (reference table for renamed-field resolution)")
 	sumOf := flag.String("summary", "", "debug: print the summary of a function id")
 	explain := flag.String("explain", "", "re-evaluate the obligation recorded in a violation report")
 	outDir := flag.String("out", envOr("LH_OUT", "/verif/evidence"), "evidence directory")
@@ -50,6 +51,9 @@ func main() {
 			}
 		}()
 		switch {
+		case *listFields:
+			p := Load(*repo, *goarch, nil)
+			dumpFields(p)
 		case *listFuncs:
 			p := Load(*repo, *goarch, nil)
 			for _, f := range p.Funcs {
